@@ -78,9 +78,13 @@ def flattenGroups : DocM Unit := do
           setRoot (Node.replaceUid cur g.uid repl)
       | none => pure ()
 
-/-- `topicosvg(ndigits, inplace=True, allow_text, drop_unsupported)`; ValueError when the gate
-    reports violations -/
-def topicosvg (ndigits : Int) (allowText dropUnsupported noneGood : Bool) : DocM Unit := do
+/-- the last step of `topicosvg`: run the gate, raise ValueError if it reports anything -/
+def gateStep (allowText dropUnsupported : Bool) : DocM Unit :=
+  checkpicosvg allowText dropUnsupported >>= fun viol =>
+    if !viol.isEmpty then fail .valueError else pure ()
+
+/-- everything `topicosvg` does before the gate -/
+def convertSteps (ndigits : Int) (noneGood : Bool) : DocM Unit := do
   updateEtree
   opRemoveNonSvg noneGood
   opRemovePIs
@@ -101,8 +105,11 @@ def topicosvg (ndigits : Int) (allowText dropUnsupported noneGood : Bool) : DocM
   removeOrphansAfterPruning
   flattenGroups
   roundFloats ndigits
-  let viol ← checkpicosvg allowText dropUnsupported
-  if !viol.isEmpty then fail .valueError
+
+/-- `topicosvg(ndigits, inplace=True, allow_text, drop_unsupported)`; ValueError when the gate
+    reports violations -/
+def topicosvg (ndigits : Int) (allowText dropUnsupported noneGood : Bool) : DocM Unit :=
+  convertSteps ndigits noneGood >>= fun _ => gateStep allowText dropUnsupported
 
 /-- `toetree()` / `tostring()`: flush and hand out the tree -/
 def toTree : DocM Node := do
